@@ -86,6 +86,16 @@ func (rs *ranges[H]) First() (*headerRange[H], bool) {
 	}
 }
 
+// Prune removes the headers up to the given height from all the ranges.
+func (rs *ranges[H]) Prune(height uint64) {
+	rs.lk.Lock()
+	defer rs.lk.Unlock()
+
+	for _, r := range rs.ranges {
+		r.Remove(height)
+	}
+}
+
 type headerRange[H header.Header[H]] struct {
 	lk      sync.RWMutex
 	headers []H
